@@ -1,20 +1,84 @@
 """C03 — run-time faults become exceptions delivered to the right catch clause."""
+import re
 from common import *
-import exc_corr
+import exc_corr, vm_corr, vm_checks, progs
 
 PROP_MODULE = "NeverModel.Props.C03"
-REQUIRED = ["Never.C03.exctab_search_correct", "Never.C03.exctab_block_unique", "Never.C03.exctab_search_in_bounds"]
+REQUIRED = ["Never.C03.exctab_search_correct", "Never.C03.exctab_block_unique", "Never.C03.exctab_search_in_bounds",
+            "Never.C03.clear_stack_resets_frame", "Never.C03.rethrow_pops_one_frame", "Never.C03.pp_discipline"]
+
+def exctab_audit(dump_path):
+    """static audit of an emitted module: table well-formed (first block 0, strictly increasing, sentinel) and every
+    handler entry is CLEAR_STACK, RETHROW or UNHANDLED_EXCEPTION"""
+    code, exc = {}, []
+    try:
+        for l in open(dump_path):
+            w = l.split()
+            if not w: continue
+            if w[0] == "i": code[int(w[1])] = int(w[2])
+            elif w[0] == "x": exc.append((int(w[1]), int(w[2])))
+    except IOError:
+        return None
+    if not exc:
+        return "empty exception table"
+    if exc[0][0] != 0: return "first block is not 0"
+    if exc[-1][0] != 4294967295: return "sentinel missing"
+    for (a, _), (b, _) in zip(exc, exc[1:]):
+        if not a < b: return "blocks not strictly increasing at %d" % a
+    ok = {OPC.get("CLEAR_STACK"), OPC.get("RETHROW"), OPC.get("UNHANDLED_EXCEPTION")}
+    for (b, hnd) in exc[:-1]:
+        # the handler address is a LABEL followed by the handler instruction
+        ops = [code.get(hnd), code.get(hnd + 1)]
+        if not (ops[0] in ok or (ops[0] == OPC.get("LABEL") and ops[1] in ok)):
+            return "handler %d of block %d starts with opcode %s/%s" % (hnd, b, ops[0], ops[1])
+    return ""
+
+OPC = {}
+def load_opcodes():
+    src = open(os.path.join(LEAN, "NeverModel", "Gen", "Opcodes.lean")).read()
+    for i, n in enumerate(re.findall(r"^  \| (\w+)$", src, re.M)):
+        OPC[n] = i
 
 def check(tier, seed):
     rep = Report("C03", tier, seed, "proof")
+    run([sys.executable, os.path.join(VERIF, "gen", "opcodes.py")])
     proof_stage(rep, PROP_MODULE, required=REQUIRED)
+    load_opcodes()
     res = exc_corr.run_correspondence(rep, tier, seed)
+    # VM part: fault-heavy programs and every sample that has a catch clause, in lockstep
+    h = vm_corr.VmHarness()
+    stats = {}
+    samples_catch = [j for j in vm_checks.sample_jobs() if "catch" in open(j["file"]).read()]
+    fam = []
+    for (n, s, m) in progs.generate(seed, 1 if tier == "quick" else 6):
+        if m.get("exc"):
+            for a in (("0",), ("1",), ("3",), ("9",)):
+                fam.append(dict(name="%s_a%s" % (n, a[0]), src=s, args=list(a), meta=m))
+    audits = {"ok": 0, "bad": 0}
+    def on_result(j, r, st, det, io):
+        a = exctab_audit(r["dump"])
+        if a is None or st in ("no-run", "compile-crash"):
+            return st in ("no-run", "compile-crash", "skipped-ffi")
+        if a == "":
+            audits["ok"] += 1
+        else:
+            audits["bad"] += 1
+            rep.violation("c03_audit_%s" % j["name"], "# emitted exception table / handler shape is not canonical: %s\n%s" % (a, j.get("src") or j.get("file")), False)
+        return st == "skipped-ffi"
+    configs = [dict(), dict(gc=1, mem=3000)] if tier == "quick" else [dict(), dict(gc=1, mem=3000), dict(gc=0, mem=900, stack=150)]
+    out = []
+    for cfg in configs:
+        out += vm_checks.sweep(h, rep, [dict(j, **cfg) for j in samples_catch + fam], "c03vm", stats, on_result)
+    h.close()
     rep.cov.update(trusted_base=["Lean 4.33 kernel", "axioms: propext, Classical.choice, Quot.sound",
-                                 "correspondence harness h_exc.c + exc_corr.py", "gcc/ASan"],
-                   evaluations=res["queries"], distinct_nontrivial=res["tables"],
-                   rule="seeded tables (80% sorted as the emitter builds them, 20% arbitrary) x boundary/random addresses; S-level = linear scan",
-                   samples=res["samples"], exctab=dict((k, v) for k, v in res.items() if k != "samples"))
-    rep.assumptions = ["part 1 only: handler lookup; unwinding is decided by the VM model (see DESIGN.md)"]
+                                 "correspondence harnesses h_exc.c, h_vm.c + comparators", "gcc/ASan"],
+                   evaluations=res["queries"] + len(out), distinct_nontrivial=res["tables"] + stats.get("ok", 0),
+                   rule="(1) seeded/exhaustive exception tables x boundary addresses against exctab.c and a linear-scan spec; (2) every sample with a catch clause and the fault-heavy families (faults at each argument position of nested calls, nested handlers, second fault inside a handler, rethrow through callers, unhandled kinds, libm faults) replayed in lockstep on the Lean VM; (3) table/handler shape audited on every dumped module",
+                   samples=res["samples"], exctab=dict((k, v) for k, v in res.items() if k != "samples"),
+                   vm_statuses={k: v for k, v in stats.items() if not k.startswith("_")}, table_audits=audits,
+                   instructions_replayed=stats.get("_steps", 0))
+    rep.assumptions = ["that the emitter yields a well-formed table and canonical handler entries for ALL programs is checked per emitted module, not proved",
+                       "delivery to the *first matching* clause relies on the emitted PUSH_EXCEPT/OP_EQ_INT/JUMPZ chain, validated by lockstep replay and by C02's reference evaluator"]
     return rep.finish()
 
 def replay(path):
